@@ -3,12 +3,32 @@
 package main
 
 import (
+	"net/http"
 	"sort"
 	"strings"
 
+	"github.com/jub0bs/cors"
 	"github.com/jub0bs/cors/internal/headers"
 	"github.com/jub0bs/cors/internal/util"
 )
+
+// the same question asked through the public API: a preflight (debug off, discrete allowed names) is approved
+// iff its status is the success status. Returns -1 if the configuration is not accepted.
+func runCheckViaMiddleware(names, lines []string) int {
+	m, err := cors.NewMiddleware(cors.Config{Origins: []string{"https://example.com"}, RequestHeaders: names})
+	if err != nil {
+		return -1
+	}
+	q := reqT{method: "OPTIONS", hdrs: http.Header{"Origin": {"https://example.com"}, "Access-Control-Request-Method": {"GET"}}}
+	if lines != nil {
+		q.hdrs["Access-Control-Request-Headers"] = lines
+	}
+	out := serveOnce(m, q, http.Header{})
+	if out.status == 403 {
+		return 0
+	}
+	return 1
+}
 
 // C14: allowed-name sets x sequences of ACRH field lines.
 var nameUniverse = []string{
@@ -34,7 +54,7 @@ func famCheck(o *Out, r R, tier string) {
 	emit := func(kind string, names, lines []string) {
 		got := runCheck(names, lines)
 		o.emit("check", got || len(lines) > 0 && strings.ContainsAny(strings.Join(lines, ""), "abxz"), kind,
-			KV("names", BL(names)), KV("lines", BL(lines)), KV("impl", Bool(got)))
+			KV("names", BL(names)), KV("lines", BL(lines)), KV("impl", Bool(got)), KV("viamw", I(runCheckViaMiddleware(names, lines))))
 	}
 	// boundary corpus: empties budget across lines, two/three-byte whitespace-only elements, window edges
 	base := []string{"ab", "x-foo"}
@@ -71,6 +91,18 @@ func famCheck(o *Out, r R, tier string) {
 				emit("window", names, []string{filler + strings.Repeat(" ", pad) + ","})
 				emit("window", names, []string{long + strings.Repeat("\t", pad) + "," + long})
 			}
+		}
+	}
+	for _, names := range [][]string{{"bar", "baz", "foo"}, {"content-type", "x-requested-with"}, {"a"}} {
+		full := strings.Join(names, ",")
+		for _, second := range []string{"x-evil", "bar", "foo", "", ",", strings.Repeat(",", 40), "  ", "\x00", "zzz", full} {
+			emit("full-list-then", names, []string{full, second})
+			emit("full-list-then", names, []string{full, "", second})
+		}
+		// the longest name padded on both sides as the last element of a line
+		long := names[len(names)-1]
+		for _, l := range [][]string{{" " + long + " "}, {"\t" + long + "\t"}, {names[0] + ", " + long + " "}, {" " + names[0] + " ", " " + long + " "}} {
+			emit("padded-last", names, l)
 		}
 	}
 	for i := 0; i < n; i++ {
